@@ -235,6 +235,47 @@ def _subsets(k):
             yield c
 
 
+def parent_after_derived(chk, r, tier):
+    """a frame keeps answering like the pandas frame it represents after frames derived from it (another active geometry, a row
+    filter) have been built and computed - also when its partitions are concrete objects held in its graph (persist, from_delayed)"""
+    import dask
+    import dask.dataframe as dd
+    from dask import delayed
+    from spatialpandas import GeoDataFrame, sjoin
+    n = 18
+    for k in range(1 if tier == "quick" else 4):
+        pa_ = [[r.randint(0, 10), r.randint(0, 10)] for _ in range(n)]
+        pb_ = [[r.randint(20, 30), r.randint(20, 30)] for _ in range(n)]
+        df = GeoDataFrame({"v": list(range(n)), "a": geo.make_array("point", pa_, "float64"), "b": geo.make_array("point", pb_, "float64")}).set_geometry("a")
+        right = GeoDataFrame({"rv": [0, 1], "geometry": geo.make_array("polygon", [[[0, 0, 6, 0, 6, 6, 0, 6, 0, 0]], [[4, 4, 11, 4, 11, 11, 4, 11, 4, 4]]], "float64")})
+        want_cx = sorted(int(x) for x in df.cx[2:8, 1:9]["v"])
+        jp = sjoin(df, right, how="inner")
+        want_join = sorted((int(a), int(b)) for a, b in zip(jp["v"], jp["rv"]))
+        for how in ("from_pandas", "persist", "from_delayed"):
+            rep = dict(api="DaskGeoDataFrame", provenance=how, points_a=pa_, points_b=pb_, then="set_geometry('b') and a row filter were built and computed")
+            try:
+                ddf = dd.from_pandas(df, npartitions=3)
+                if how == "persist":
+                    ddf = ddf.persist()
+                elif how == "from_delayed":
+                    ddf = dd.from_delayed([delayed(p_) for p_ in dask.compute(*ddf.to_delayed())], meta=ddf._meta)
+                d2 = ddf.set_geometry("b")
+                d2.cx[20:26, 20:26].compute(); d2.compute(); len(d2.geometry.total_bounds)
+                ddf[ddf.v < 7].compute()
+                chk.evaluated(n)
+                got_cx = sorted(int(x) for x in ddf.cx[2:8, 1:9].compute()["v"])
+                jd = sjoin(ddf, right, how="inner").compute()
+                got_join = sorted((int(a), int(b)) for a, b in zip(jd["v"], jd["rv"]))
+                act = ddf.compute().geometry.name
+                if got_cx != want_cx or got_join != want_join or act != "a":
+                    what = "cx" if got_cx != want_cx else "sjoin" if got_join != want_join else "active-geometry"
+                    chk.violation(f"dask/parent-answers-differently-after-a-derived-frame-was-computed/{what}/{how}",
+                                  dict(rep, cx=[got_cx, want_cx], sjoin=[got_join[:8], want_join[:8]], active=str(act)))
+            except Exception as e:  # noqa: BLE001
+                chk.violation(f"dask/parent-after-derived-raises-{common.err_kind(e)}/{how}", dict(rep, error=repr(e)[:300]))
+    chk.count("parent-after-derived")
+
+
 def run_cases(chk, tier):
     import dask
     import dask.dataframe as dd
@@ -245,6 +286,7 @@ def run_cases(chk, tier):
     r = common.rng(PROP)
     rounds = 3 if tier == "quick" else 25
     tmp_root = tempfile.mkdtemp(prefix="spv_c06_")
+    parent_after_derived(chk, common.rng(PROP + "-parent"), tier)
     try:
         for kind in geo.KINDS:
             for k in range(rounds):
